@@ -222,10 +222,11 @@ def marginal_table(ctx: Ctx):
             continue
         prop = table[kw]
         public = MARGINAL_PUBLIC[kw]
-        body = SUMMARIZER.summarize(ctx.repo.lookup(sl, public).node)
+        from .common import marginal_leaves
+
         want = f"self._assemble_marginal(self._measures.{prop})"
-        ok = any(u(l) == want for _g, l in strip_ifexp_paths(body))
-        ctx.ob("marginal-table", w, f"surrogate `{prop}`; public _Slice.{public} 1-D branch: {[u(l)[:70] for _g, l in strip_ifexp_paths(body)][-1]}", want, ok, "rows are ordered by the marginal the public property assembles")
+        leaves, ok = marginal_leaves(ctx, sl, public, want)
+        ctx.ob("marginal-table", w, f"surrogate `{prop}`; public _Slice.{public} 1-D branch: {(leaves or ['no path'])[-1][:70]}", want, ok, "rows are ordered by the marginal the public property assembles")
     ctx.require_min("marginal keywords", 7)
     for part, k in (("_element_values", 0), ("_subtotal_values", 1)):
         e = expand(ctx.repo, ci, part, stop=lambda mm: mm.name == "_marginal")
